@@ -178,6 +178,11 @@ def run_case(real, tmp):
     nb = len(hist)
     raw = nla_drv.raw_of(hist, F)
     fr, _rawfr = nla_drv.frames(kind, raw, tmp)
+    if "ARB" in getattr(fr.get("prices"), "columns", ()):
+        # the late-quoted token of the C02 worlds (NaN before its first quote) stays out of C05's runs: on a resampled grid the bar's
+        # price of such a column is the first QUOTE inside the bar, not the first minute's cell, and "the bar's token prices" is
+        # decided here against the first minute's row
+        fr["prices"] = fr["prices"].drop(columns=["ARB"])
     w = nla_drv.actuator(kind, F, fr)
     act = w.act
     supplied_prices = fr["prices"]           # the frame object the user supplied (the actuator resamples a copy)
